@@ -276,3 +276,106 @@ def refusal_specs(prop='C03'):
                requires=req_fixup, ensures={'returns': lambda result, **a: True},
                raises={IndexError: lambda **a: False}, raises_exact=False,
                native=('k_index', 'replay_fixup_slice'))]
+
+
+# ---------------------------------------------------------------------------------------------------------------------
+# C03.callsite (structural): every slice handler normalises its (start, stop) through fixup_slice_indices before it
+# uses them - the proved index contract is then what every handler's indices obey.
+
+def callsite_structural(rep, prop='C03'):
+    import ast
+    from pyvc import frontend
+    registered, skipped = [], []
+    targets = []
+    for modname, tables in (('fst_put_slice', ['_PUT_SLICE_HANDLERS']), ('fst_get_slice', ['_GET_SLICE_HANDLERS'])):
+        mod = frontend.module(modname)
+        names = set()
+        for t in tables:
+            d = frontend.module_assign(modname, t)
+            for v in d.values:
+                for n in ast.walk(v):
+                    if isinstance(n, ast.Name) and n.id.startswith(('_put_slice', '_get_slice', 'put_slice', 'get_slice')):
+                        names.add(n.id)
+        funcs = {n.name: n for n in mod.tree.body if isinstance(n, ast.FunctionDef)}
+        for nm in sorted(names):
+            if nm in funcs:
+                targets.append((modname, nm, funcs[nm]))
+
+    class _S:
+        name = 'call-site discipline (structural): indices normalised before use'
+        notes = 'first use of start/stop is the rebinding through fixup_slice_indices(<len ...>, start, stop[, start_at])'
+    for modname, nm, fn in targets:
+        params = [a.arg for a in fn.args.posonlyargs + fn.args.args + fn.args.kwonlyargs]
+        if 'start' not in params or 'stop' not in params:
+            skipped.append((nm, 'no start/stop parameters'))
+            continue
+        uses = sorted(((n.lineno, n.col_offset, n) for n in ast.walk(fn)
+                       if isinstance(n, ast.Name) and n.id in ('start', 'stop') and isinstance(n.ctx, ast.Load)),
+                      key=lambda t: t[:2])
+        fix = None
+        for st in fn.body:      # top-level statement: dominates everything after it
+            if (isinstance(st, ast.Assign) and isinstance(st.value, ast.Call) and isinstance(st.value.func, ast.Name)
+                    and st.value.func.id == 'fixup_slice_indices'):
+                fix = st
+                break
+        ident = f'{modname}:{nm}'
+        if fix is None:
+            # pure delegation: start/stop only ever handed on, in order, to another slice function
+            ok_deleg = bool(uses) and all(_is_passthrough(fn, u[2]) for u in uses)
+            if not ok_deleg:
+                skipped.append((nm, 'no top-level fixup_slice_indices and not a pure delegation'))
+                continue
+            kind, ok, detail = 'delegates', True, 'start/stop are only handed on to another slice function'
+        else:
+            a = fix.value.args
+            tg = fix.targets[0]
+            ok = (len(a) >= 3 and isinstance(a[1], ast.Name) and a[1].id == 'start' and isinstance(a[2], ast.Name)
+                  and a[2].id == 'stop' and isinstance(tg, ast.Tuple) and [getattr(e, 'id', None) for e in tg.elts] ==
+                  ['start', 'stop'] and _is_len_expr(fn, a[0]))
+            early = [u for u in uses if (u[0], u[1]) < (fix.lineno, fix.col_offset)]
+            ok = ok and not early
+            kind = 'fixup'
+            detail = (f'line {fix.lineno - fn.lineno}: {ast.unparse(fix)[:90]}' +
+                      (f'; start/stop read before that at lines {[u[0] - fn.lineno for u in early]}' if early else ''))
+        try:
+            loc = frontend.locate(ident)
+        except frontend.ExtractionError:
+            skipped.append((nm, 'not a live definition'))
+            continue
+        rep.function(loc, _S)
+        name = f'{prop}.callsite.{nm}'
+        rep.other('structural', name, ok, detail=detail, key=name,
+                  replay={'function': ident, 'kind': kind, 'detail': detail,
+                          'verifier_output': 'structural call-site analysis'})
+        registered.append(nm)
+    rep.extra['callsite_registered'] = len(registered)
+    rep.extra['callsite_not_registered'] = skipped[:40]
+    if len(registered) < 40:
+        rep.checker_error(f'only {len(registered)} slice handlers analysed (anchor changed?)')
+    return registered, skipped
+
+
+def _is_len_expr(fn, e, depth=0):
+    """an expression built from len(...) - directly, or through locals each assigned from such an expression"""
+    import ast
+    if depth > 3:
+        return False
+    if any(isinstance(c, ast.Call) and isinstance(c.func, ast.Name) and c.func.id == 'len' for c in ast.walk(e)):
+        return True
+    for nm in [n for n in ast.walk(e) if isinstance(n, ast.Name) and isinstance(n.ctx, ast.Load)]:
+        defs = [n for n in ast.walk(fn) if isinstance(n, (ast.Assign, ast.NamedExpr)) and
+                any(isinstance(t, ast.Name) and t.id == nm.id for t in
+                    (n.targets if isinstance(n, ast.Assign) else [n.target]))]
+        if defs and all(_is_len_expr(fn, d.value, depth + 1) for d in defs):
+            return True
+    return False
+
+
+def _is_passthrough(fn, name_node):
+    import ast
+    for n in ast.walk(fn):
+        if isinstance(n, ast.Call) and any(a is name_node for a in n.args):
+            f = n.func
+            fname = f.id if isinstance(f, ast.Name) else getattr(f, 'attr', '')
+            return 'slice' in fname or fname in ('handler',)
+    return False
